@@ -39,6 +39,9 @@ open Tickit Tickit.WinTree Tickit.WinInput
 /-- The working tree contains the three repairs (sibling snapshot, counted claim, whole-chain visibility). -/
 theorem code_is_repaired : Tickit.Gen.WinInputCfg.cfg = Cfg.repaired := by decide
 
+/-- `_focus_gained` is the code the model's `take_focus` action mirrors (/repo commit 7a99ce0). -/
+theorem focus_code_is_current : Tickit.Gen.WinInputCfg.focusLossRepaired = true := by decide
+
 /-- The event-type constants the drag synthesis uses are the header's. -/
 theorem event_constants : Tickit.Gen.WinInputCfg.mouseevPress = evPress ∧
     Tickit.Gen.WinInputCfg.mouseevDragStart = evDragStart := by decide
